@@ -19,7 +19,8 @@ package consensus_test
 //     the same blocks have the same CmdCount and digest.
 // Every replica's run is also emitted as a Gallina case for Corr/C06.v replica_mismatches
 // (RTryCommit with the block as created and the commit rule's recorded answer).
-// Streams: "prop_x" (every propose/fail/skip schedule of 7 views, n = 2, 3), "prop_r" (seeded random).
+// Streams: "prop_x" (every propose/fail/skip schedule of 7 views, n = 2, 3), "prop_r" (seeded random),
+// "prop_s" (1500+ clients), "prop_l" (long commit stalls, then the backlog commits at once).
 
 import (
 	"bytes"
@@ -434,6 +435,48 @@ func (w *c06World) proposerStreams(t *testing.T) {
 	w.proposers(t, xs, "prop_s", c06PropScenario{N: 2, Rules: rulesets[0], Batch: 128, Clients: 1500, Actions: "ppppppppppppfpppppp"})
 	if v.Thorough() {
 		w.proposers(t, xs, "prop_s", c06PropScenario{N: 3, Rules: rulesets[1], Batch: 200, Clients: 5000, Actions: "ppppppppppppppppppppppppppfpppsppppp"})
+	}
+	// long stall: every rule set commits only along consecutive views, so a schedule "propose,
+	// propose, no proposal" (the third view skipped, or its leader unable to propose) certifies block
+	// after block without committing any; the proposers keep taking batches out of their caches while
+	// all their earlier blocks are still uncommitted.  Recovery: six consecutive proposals commit the
+	// whole backlog in one call.  One proposer (two replicas, the other's views without proposal)
+	// with 17, 20, 33, 40, 70 stalled proposals;
+	// round robin with n = 2 and n = 4 long enough for every leader to pass 17 of its own.
+	ls := v.Stream("prop_l", "replica_mismatches", 4)
+	stall := func(n, proposals int, gap byte, ruleset string, batch int) {
+		var acts []byte
+		if n == 1 {
+			// one proposer: with two replicas, only the views led by replica 1 have a proposal
+			n = 2
+			for k := 0; k < proposals; k++ {
+				acts = append(acts, gap, 'p')
+			}
+		} else {
+			for k := 0; 2*k < proposals; k++ {
+				acts = append(acts, 'p', 'p', gap)
+			}
+		}
+		acts = append(acts, "pppppp"...)
+		v.Count(fmt.Sprintf("prop_l:n=%d:stalled=%d", n, proposals))
+		w.proposers(t, ls, "prop_l", c06PropScenario{N: n, Rules: ruleset, Batch: batch, Actions: string(acts)})
+	}
+	for i, k := range []int{17, 20, 33, 40, 70} {
+		for j, rsName := range rulesets {
+			if !v.Thorough() && (i+j)%3 != 0 && k != 17 {
+				continue
+			}
+			stall(1, k, "sf"[(i+j)%2], rsName, 1+(i+j)%2)
+		}
+	}
+	for j, rsName := range rulesets {
+		stall(2, 40, "sf"[j%2], rsName, 1+j%2)
+		stall(4, 76+4*j, "fs"[j%2], rsName, 1)
+		if v.Thorough() {
+			stall(2, 150, 's', rsName, 2)
+			stall(3, 120, 'f', rsName, 1)
+			stall(4, 160, 's', rsName, 2)
+		}
 	}
 	rs := v.Stream("prop_r", "replica_mismatches", 200)
 	for i := 0; i < v.Pick(150, 3000); i++ {
